@@ -180,7 +180,7 @@ class SequentialCB(Evaluator):
             lrn_rwds = interaction[learn_target] if learn_type else rewards if lrn_on else None
             val_rwds = interaction[eval_target ] if eval_type  else rewards if val_on else None
 
-            N += 1 if not batched else len(lrn_rwds) if lrn_rwds else len(val_rwds)
+            N += 1 if not batched else len(next(v for v in (lrn_rwds,val_rwds,off_rwd,actions,context) if v is not None))
 
             start = time.time()
             if should_pred: on_act,on_pr,on_kw=learner.predict(context,actions)
